@@ -104,6 +104,9 @@ func c01(args []string) int {
 	}
 	out.Extra["class_string_max_len"] = L
 	out.Extra["total_cases_all_shards"] = total
+	if f.Shard == 0 {
+		ctxReuse(out, "C01")
+	}
 	out.Finish(f)
 	return 0
 }
